@@ -50,9 +50,9 @@ GraphSpecs ==
            G("chain", 0, 0), G("chain", 2, 0), G("chain", 1001, 0), G("chain", 2500, 0),
            G("bip", 3, 400), G("bip", 20000, 0), G("bip", 101, 200) }
     [] Graphs = "small" ->     \* around the 100-slot channels, all programs up to three steps
-         { G("star", 0, 0), G("star", 1, 0), G("star", 99, 0), G("star", 100, 0), G("star", 101, 0), G("star", 201, 0), G("star", 350, 0),
-           G("chain", 0, 0), G("chain", 1, 0), G("chain", 2, 0), G("chain", 100, 0), G("chain", 102, 0), G("chain", 202, 0),
-           G("bip", 1, 1), G("bip", 2, 101), G("bip", 11, 10), G("bip", 101, 3) }
+         { G("star", 0, 0), G("star", 1, 0), G("star", 99, 0), G("star", 100, 0), G("star", 101, 0), G("star", 201, 0),
+           G("chain", 0, 0), G("chain", 1, 0), G("chain", 2, 0), G("chain", 102, 0), G("chain", 202, 0),
+           G("bip", 1, 1), G("bip", 2, 101), G("bip", 11, 10) }
     [] Graphs = "large" ->     \* around the 1000- and 5000-slot channels
          { G("star", 999, 0), G("star", 1000, 0), G("star", 1001, 0), G("star", 1103, 0), G("star", 1205, 0), G("star", 1500, 0),
            G("star", 2001, 0), G("star", 2500, 0), G("star", 4999, 0), G("star", 5000, 0), G("star", 5001, 0), G("star", 10001, 0),
@@ -121,7 +121,7 @@ Starts == { <<[op |-> "V", ids |-> <<>>]>>, <<[op |-> "E", ids |-> <<>>]>>,
 
 Ones(n) == [i \in 1..n |-> 1]
 Exact(ty, m) == [ty |-> ty, m |-> m, trunc |-> FALSE, lo |-> Total(g, ty, m), hi |-> Total(g, ty, m),
-                 flows |-> <<>>, kinds |-> <<>>, bothmax |-> 0, mono |-> TRUE, need |-> -1]
+                 flows |-> <<>>, kinds |-> <<>>, bothmax |-> 0, mono |-> TRUE, need |-> -1, tags |-> ty = "v"]
 StartState(p) ==
   LET st0 == CASE p[1].op = "E" -> Exact("e", Ones(NQ(g)))
                [] Len(p) = 2     -> Exact("v", [c \in 1..NC(g) |-> IF VLabel(g, c) = "L" THEN 1 ELSE 0])
@@ -162,12 +162,14 @@ Apply(x) ==
              [] x.op = "bothE" -> [ty |-> "e", m |-> Plus(VOutE(g, m), VInE(g, m)), kind |-> "both"]
              [] x.op = "hasLabel" -> IF ty = "v" THEN [ty |-> "v", m |-> [c \in 1..NC(g) |-> IF VLabel(g, c) = x.labels[1] THEN m[c] ELSE 0], kind |-> "filter"]
                                      ELSE [ty |-> "e", m |-> [j \in 1..NQ(g) |-> 0], kind |-> "filter"]
-             [] x.op = "unwind" -> IF ty = "v" THEN [ty |-> "v", m |-> [c \in 1..NC(g) |-> 2 * m[c]], kind |-> "simple.fan"]
-                                   ELSE [ty |-> "e", m |-> m, kind |-> "simple"]
+             \* every vertex carries tags = [t1, t2]: unwind doubles the rows - once; afterwards (and after fields(k),
+             \* and on edges) the field is not a list and unwind keeps one row per row
+             [] x.op = "unwind" -> IF ty = "v" /\ s.tags THEN [ty |-> "v", m |-> [c \in 1..NC(g) |-> 2 * m[c]], kind |-> "simple.fan"]
+                                   ELSE [ty |-> ty, m |-> m, kind |-> "simple"]
              [] x.op = "distinct" /\ x.fields = <<>> -> [ty |-> ty, m |-> [i \in DOMAIN m |-> MinOf(m[i], 1)], kind |-> "distinct"]
              [] x.op = "path" -> [ty |-> "o", m |-> <<>>, kind |-> "simple"]
              [] OTHER -> [ty |-> ty, m |-> m, kind |-> "simple"]      \* as, fields: one row per row
-      rowwise == x.op \in {"as", "fields", "path"} \/ (x.op = "unwind" /\ ty = "e")
+      rowwise == x.op \in {"as", "fields", "path"} \/ (x.op = "unwind" /\ ~(ty = "v" /\ s.tags))
       nt == IF t.ty = "o" THEN s.hi ELSE Total(g, t.ty, t.m)
       res ==
         CASE x.op \in {"out", "in", "both", "outE", "inE", "bothE", "hasLabel", "unwind", "as", "fields", "path"} \/ (x.op = "distinct" /\ x.fields = <<>>) ->
@@ -196,6 +198,8 @@ Apply(x) ==
       kind == CASE x.op = "count" -> "count" [] x.op = "aggregate" -> "agg" [] x.op \in {"limit", "range"} -> "limit"
                 [] x.op = "skip" -> "simple" [] x.op = "distinct" -> "distinct" [] OTHER -> t.kind
   IN [res EXCEPT !.flows = Append(s.flows, res.hi), !.kinds = Append(s.kinds, kind),
+                 !.tags = IF x.op \in {"out", "in", "both"} THEN TRUE
+                          ELSE IF x.op \in {"unwind", "fields", "outE", "inE", "bothE"} THEN FALSE ELSE s.tags,
                  !.bothmax = MaxOf(s.bothmax, MaxOf(din, dout)),
                  \* mono: so far every element of the source scan has produced at least one row;
                  \* need: a limit/range reached through such steps is satisfied (calls cancel) once this many
